@@ -250,4 +250,100 @@ theorem foldInvP_kwHead {cc : CharClasses} (hw : FoldWordAll cc) (hd : FoldDigit
 theorem foldInvR_ID {cc : CharClasses} (hw : FoldWordAll cc) (hd : FoldDigitAll cc) : FoldInvR cc Gen.Regexes.ID :=
   ⟨foldInvP_kwHead hw hd, foldInvP_word hw, hw⟩
 
+/-! ## the ASCII tables satisfy the hypotheses (non-vacuity; the driver's tables extend them) -/
+def asciiPairOk (n k : Nat) : Bool :=
+  asciiFold (Char.ofNat n) != asciiFold (Char.ofNat k) ||
+    (n == k || (decide (65 ≤ n) && decide (n ≤ 90) && k == n + 32) || (decide (65 ≤ k) && decide (k ≤ 90) && n == k + 32))
+theorem ascii_fold_pairs_b : ((List.range 128).all fun n => (List.range 128).all fun k => asciiPairOk n k) = true := by
+  decide +kernel
+theorem ascii_fold_pairs : ∀ n, n < 128 → ∀ k, k < 128 → asciiFold (Char.ofNat n) = asciiFold (Char.ofNat k) →
+    n = k ∨ (65 ≤ n ∧ n ≤ 90 ∧ k = n + 32) ∨ (65 ≤ k ∧ k ≤ 90 ∧ n = k + 32) := by
+  intro n hn k hk h
+  have := ascii_fold_pairs_b
+  rw [List.all_eq_true] at this
+  have := this n (List.mem_range.mpr hn)
+  rw [List.all_eq_true] at this
+  have := this k (List.mem_range.mpr hk)
+  simp only [asciiPairOk, h, bne_self_eq_false, Bool.false_or, Bool.or_eq_true, Bool.and_eq_true, beq_iff_eq,
+    decide_eq_true_eq] at this
+  rcases this with (h1 | h1) | h1
+  · exact .inl h1
+  · exact .inr (.inl ⟨h1.1.1, h1.1.2, h1.2⟩)
+  · exact .inr (.inr ⟨h1.1.1, h1.1.2, h1.2⟩)
+theorem ascii_fold_small : ∀ n, n < 128 → (asciiFold (Char.ofNat n)).toNat < 128 := by decide +kernel
+theorem ascii_word_pairs : ∀ n, n < 26 → asciiWord (Char.ofNat (65+n)) = asciiWord (Char.ofNat (97+n)) := by decide +kernel
+
+theorem asciiCC_fold (c : Char) : asciiCC.fold c = if c.toNat < 128 then asciiFold c else c := by
+  simp [asciiCC, tableCC]
+theorem asciiCC_isWord (c : Char) : asciiCC.isWord c = if c.toNat < 128 then asciiWord c else false := by
+  simp [asciiCC, tableCC]
+
+theorem asciiCC_fold_eq {a b : Char} (h : asciiCC.fold a = asciiCC.fold b) :
+    a = b ∨ (a.toNat < 128 ∧ b.toNat < 128 ∧
+      ((65 ≤ a.toNat ∧ a.toNat ≤ 90 ∧ b.toNat = a.toNat + 32) ∨ (65 ≤ b.toNat ∧ b.toNat ≤ 90 ∧ a.toNat = b.toNat + 32))) := by
+  rw [asciiCC_fold, asciiCC_fold] at h
+  by_cases ha : a.toNat < 128 <;> by_cases hb : b.toNat < 128
+  · simp only [ha, hb, if_true] at h
+    have ea : a = Char.ofNat a.toNat := by simp
+    have eb : b = Char.ofNat b.toNat := by simp
+    rw [ea, eb] at h
+    rcases ascii_fold_pairs _ ha _ hb h with h | h | h
+    · left; rw [ea, eb, h]
+    · right; exact ⟨ha, hb, .inl h⟩
+    · right; exact ⟨ha, hb, .inr h⟩
+  · simp only [ha, hb, if_true, if_false] at h
+    have ea : a = Char.ofNat a.toNat := by simp
+    have := ascii_fold_small _ ha
+    rw [← ea, h] at this
+    exact absurd this hb
+  · simp only [ha, hb, if_true, if_false] at h
+    have eb : b = Char.ofNat b.toNat := by simp
+    have := ascii_fold_small _ hb
+    rw [← eb, ← h] at this
+    exact absurd this ha
+  · simp only [ha, hb, if_false] at h
+    exact .inl h
+
+theorem ascii_digit_pairs : ∀ n, n < 26 → asciiDigit (Char.ofNat (65+n)) = asciiDigit (Char.ofNat (97+n)) := by
+  decide +kernel
+
+theorem asciiCC_isDigit (c : Char) : asciiCC.isDigit c = if c.toNat < 128 then asciiDigit c else false := by
+  simp [asciiCC, tableCC]
+
+/-- a test that agrees on `A`/`a` … `Z`/`z` is invariant under the ASCII folding -/
+theorem foldInvP_ascii {P : Char → Bool} (h : ∀ n, n < 26 → P (Char.ofNat (65+n)) = P (Char.ofNat (97+n))) :
+    FoldInvP asciiCC P := by
+  intro a b hab
+  rcases asciiCC_fold_eq hab with rfl | ⟨_, _, ⟨h1, h2, h3⟩ | ⟨h1, h2, h3⟩⟩
+  · rfl
+  · obtain ⟨k, hk, ea, eb⟩ : ∃ k, k < 26 ∧ a = Char.ofNat (65 + k) ∧ b = Char.ofNat (97 + k) := by
+      refine ⟨a.toNat - 65, by omega, ?_, ?_⟩
+      · rw [show 65 + (a.toNat - 65) = a.toNat by omega]; simp
+      · rw [show 97 + (a.toNat - 65) = b.toNat by omega]; simp
+    subst ea eb; exact h k hk
+  · obtain ⟨k, hk, ea, eb⟩ : ∃ k, k < 26 ∧ a = Char.ofNat (97 + k) ∧ b = Char.ofNat (65 + k) := by
+      refine ⟨b.toNat - 65, by omega, ?_, ?_⟩
+      · rw [show 97 + (b.toNat - 65) = a.toNat by omega]; simp
+      · rw [show 65 + (b.toNat - 65) = b.toNat by omega]; simp
+    subst ea eb; exact (h k hk).symm
+
+theorem ascii_letters_small : ∀ n, n < 26 → (Char.ofNat (65+n)).toNat < 128 ∧ (Char.ofNat (97+n)).toNat < 128 := by
+  decide +kernel
+
+theorem foldWordAll_ascii : FoldWordAll asciiCC := by
+  apply foldInvP_ascii
+  intro n hn
+  rw [asciiCC_isWord, asciiCC_isWord]
+  have := ascii_word_pairs n hn
+  obtain ⟨h1, h2⟩ := ascii_letters_small n hn
+  simp [h1, h2, this]
+
+theorem foldDigitAll_ascii : FoldDigitAll asciiCC := by
+  apply foldInvP_ascii
+  intro n hn
+  rw [asciiCC_isDigit, asciiCC_isDigit]
+  have := ascii_digit_pairs n hn
+  obtain ⟨h1, h2⟩ := ascii_letters_small n hn
+  simp [h1, h2, this]
+
 end Re
